@@ -272,9 +272,19 @@ def _who_writes(ck: Check, repo: Repo) -> None:
     upd = per.methods["update_priorities"]
     calls = [c for c in calls_in(upd.node) if call_name(c) == "self._update_priority"]
     ck.ob("C11.2", upd, calls[0] if calls else upd.node, len(calls) == 1, "update_priorities writes through _update_priority")
-    fors = [n for n in walk_no_nested(upd.node) if isinstance(n, ast.For)]
-    ok = bool(fors) and isinstance(fors[0].iter, ast.Call) and call_name(fors[0].iter) == "zip" and [dotted(a) for a in fors[0].iter.args] == ["indices", "priorities"]
-    ck.ob("C11.2", upd, fors[0] if fors else upd.node, ok, "index k is paired with priority k (zip(indices, priorities))")
+    # the pair handed to _update_priority is (element k of the indices given, a priority computed from element k of the priorities given), whichever
+    # way the loop visits the pairs: zip of the two, enumerate of one and the position into the other, positions into both
+    from ._c11_r3b import _enclosing_loop, pair_alignment
+    ucfg = CFG(upd.node)
+    utb = TermBuilder(repo, upd, cfg=ucfg, depth=0)
+    site, ok, detail = upd.node, False, "no loop over the pairs around the _update_priority call"
+    un = ucfg.node_of(calls[0]) if len(calls) == 1 else None
+    UL = _enclosing_loop(ucfg, un) if un is not None else None
+    if UL is not None:
+        oki, okp, ti, tp = pair_alignment(utb, upd, calls[0], un, UL.stmt)
+        site, ok = UL.stmt, oki and okp
+        detail = f"index = {ti.key()[:120] if ti is not None else '?'} ; priority = {tp.key()[:120] if tp is not None else '?'}"
+    ck.ob("C11.2", upd, site, ok, "index k is paired with priority k (zip(indices, priorities))", detail=detail)
     # tree capacity >= max_size (power of two loop)
     src = ast.unparse(init.node)
     ck.ob("C11.4", init, init.node, has(src, 'while $tree_capacity < $max_size:\n    ...') and has(src, '$tree_capacity *= 2'),
@@ -419,6 +429,36 @@ def _loop_build(tb: TermBuilder, e: ast.AST, at: Node, pidx: str) -> Optional[_B
     return _Build(L.ast.iter, index_src, why, elems)
 
 
+def _carries(cfg: CFG, e: ast.AST, at: Node, want: ast.AST, through_methods: bool = True, _depth: int = 0) -> bool:
+    """the value of `e` (evaluated at `at`) is what the call `want` returned: the call itself, a local every reaching definition of which binds
+    such a value (temporaries, either arm of a conditional expression) and — with `through_methods` — a method call on / an attribute or
+    subscript of / a first-argument adapter function applied to such a value."""
+    if e is want:
+        return True
+    if _depth > 12:
+        return False
+    if isinstance(e, ast.NamedExpr):
+        return _carries(cfg, e.value, at, want, through_methods, _depth + 1)
+    if isinstance(e, ast.IfExp):
+        return _carries(cfg, e.body, at, want, through_methods, _depth + 1) and _carries(cfg, e.orelse, at, want, through_methods, _depth + 1)
+    if isinstance(e, ast.Name):
+        defs = cfg.defs_reaching(at, e.id)
+        vals = [cfg.value_of_def(d, e.id) for d in defs]
+        return bool(defs) and all(v is not None and d.kind == "stmt" and d is not at and _carries(cfg, v, d, want, through_methods, _depth + 1)
+                                  for d, v in zip(defs, vals))
+    if not through_methods:
+        return False
+    if isinstance(e, ast.Call):
+        if isinstance(e.func, ast.Attribute) and not (call_name(e) in _SEQ_FUNCS and e.args):
+            return _carries(cfg, e.func.value, at, want, through_methods, _depth + 1)
+        if call_name(e) in _SEQ_FUNCS and e.args and not isinstance(e.args[0], ast.Starred):
+            return _carries(cfg, e.args[0], at, want, through_methods, _depth + 1)
+        return False
+    if isinstance(e, (ast.Attribute, ast.Subscript)):
+        return _carries(cfg, e.value, at, want, through_methods, _depth + 1)
+    return False
+
+
 def _weights(ck: Check, repo: Repo) -> None:
     fn = repo.fn(RB, "PrioritizedReplayBuffer._calculate_weights")
     cfg = CFG(fn.node)
@@ -481,27 +521,22 @@ def _weights(ck: Check, repo: Repo) -> None:
     scfg = CFG(sm.node)
     cw = [c for c in calls_in(sm.node) if call_name(c) == "self._calculate_weights"]
     sp = [c for c in calls_in(sm.node) if call_name(c) == "self._sample_proportional"]
-    ok = len(cw) == 1 and len(sp) == 1 and isinstance(cw[0].args[0], ast.Name)
+    ok = len(cw) == 1 and len(sp) == 1 and bool(cw[0].args) and not isinstance(cw[0].args[0], ast.Starred)
     if ok:
         n = scfg.node_of(cw[0])
-        defs = scfg.defs_reaching(n, cw[0].args[0].id)
-        ok = len(defs) == 1 and scfg.value_of_def(defs[0], cw[0].args[0].id) is sp[0]
+        # the argument IS what _sample_proportional returned: the call itself or plain temporaries bound to it (no conversion in between)
+        ok = n is not None and _carries(scfg, cw[0].args[0], n, sp[0], through_methods=False)
     ck.ob("C11.5", sm, cw[0] if cw else sm.node, ok, "weights are computed for exactly the indices drawn by _sample_proportional")
     ok = bool(sp) and dotted(sp[0].args[0]) == "batch_size"
     ck.ob("C11.6", sm, sp[0] if sp else sm.node, ok, "the number of strata equals the requested batch size")
     st = [n for n in walk_no_nested(sm.node) if isinstance(n, ast.Assign) and isinstance(n.targets[0], ast.Subscript) and const_value(n.targets[0].slice) in ("idxs", "weights")]
     for n in st:
         key = const_value(n.targets[0].slice)
-        # role of the stored value: the local defined by the _sample_proportional call (idxs) / the _calculate_weights call (weights)
-        base = n.value
-        while isinstance(base, (ast.Call, ast.Attribute, ast.Subscript)):
-            base = base.func.value if isinstance(base, ast.Call) and isinstance(base.func, ast.Attribute) else (base.value if not isinstance(base, ast.Call) else base.func)
+        # role of the stored value: what the _sample_proportional call (idxs) / the _calculate_weights call (weights) returned, handed on
+        # directly, through temporaries or through method calls / attributes / subscripts applied to it (their types are the business of C11.9)
         want = (sp[0] if sp else None) if key == "idxs" else (cw[0] if cw else None)
-        ok = False
         nn = scfg.node_of(n)
-        if isinstance(base, ast.Name) and want is not None and nn is not None:
-            vals = [scfg.value_of_def(d, base.id) for d in scfg.defs_reaching(nn, base.id)]
-            ok = bool(vals) and all(v is want for v in vals)
+        ok = want is not None and nn is not None and _carries(scfg, n.value, nn, want)
         ck.ob("C11.5", sm, n, ok, f"batch['{key}'] carries the sampled {key}")
     beta = [c for c in cw if len(c.args) == 2 and dotted(c.args[1]) == "beta"]
     ck.ob("C11.5", sm, cw[0] if cw else sm.node, bool(beta), "the caller's beta is the exponent used")
@@ -695,4 +730,27 @@ VARIANTS += [
     ("weights-explicit-float32-ok", _RBF, _W_ALLOC, "        weights = torch.zeros(batch_size, dtype=torch.float32, device=self.device)\n", "silent", None),
     ("weights-allocated-then-moved-ok", _RBF, _W_ALLOC, "        weights = torch.zeros(batch_size)\n        weights = weights.to(self.device)\n", "silent", None),
     ("weights-float-cast-in-sample-ok", _RBF, 'samples["weights"] = weights.unsqueeze(1)', 'samples["weights"] = weights.float().unsqueeze(1)', "silent", None),
+]
+# C11.5 (sample): the value stored under "weights" / handed to _calculate_weights is traced by data flow (direct call, temporaries, adapters);
+# C11.2: pair k of update_priorities is recognised however the loop visits the pairs (zip, enumerate + position, positions)
+_S_W = ("        weights = self._calculate_weights(indices, beta)\n\n        # Add weights and indices to the batch\n"
+        '        samples["weights"] = weights.unsqueeze(1)\n')
+_S_DRAW = "        indices = self._sample_proportional(batch_size)\n\n        # Gather transitions\n"
+_UP_PRIO = "            priority = max(priority.item(), 1e-5)\n"
+VARIANTS += [
+    ("sample-weights-temporary-folded-ok", _RBF, _S_W, '        samples["weights"] = self._calculate_weights(indices, beta).unsqueeze(1)\n', "silent", None),
+    ("sample-weights-two-temporaries-ok", _RBF, _S_W, "        weights = self._calculate_weights(indices, beta)\n        column = weights.unsqueeze(1)\n"
+     '        samples["weights"] = column\n', "silent", None),
+    ("sample-indices-through-temporary-ok", _RBF, _S_DRAW, "        drawn = self._sample_proportional(batch_size)\n        indices = drawn\n\n", "silent", None),
+    ("sample-weights-of-permuted-indices", _RBF, _S_W, '        samples["weights"] = self._calculate_weights(indices.flip(0), beta).unsqueeze(1)\n', "fire", "C11.5"),
+    ("sample-weights-replaced-by-ones", _RBF, _S_W, '        samples["weights"] = torch.ones_like(self._calculate_weights(indices, beta)).unsqueeze(1)\n', "fire", "C11.5"),
+    ("sample-weights-temporary-rebound", _RBF, _S_W, "        weights = self._calculate_weights(indices, beta)\n        weights = torch.ones(batch_size)\n"
+     '        samples["weights"] = weights.unsqueeze(1)\n', "fire", "C11.5"),
+    ("update-pairs-by-position-ok", _RBF, _UP_HEAD, "        for k in range(len(indices)):\n            idx = indices[k]\n            priority = priorities[k]\n"
+     "            # Handle small priorities\n", "silent", None),
+    ("update-pairs-enumerate-ok", _RBF, _UP_HEAD, "        for k, idx in enumerate(indices):\n            priority = priorities[k]\n            # Handle small priorities\n", "silent", None),
+    ("update-pairs-swapped-zip-ok", _RBF, _UP_HEAD, "        for priority, idx in zip(priorities, indices):\n            # Handle small priorities\n", "silent", None),
+    ("update-pairs-by-position-neighbour", _RBF, _UP_HEAD, "        for k, idx in enumerate(indices):\n            priority = priorities[k - 1]\n"
+     "            # Handle small priorities\n", "fire", "C11.2"),
+    ("update-pairs-priority-from-index-sequence", _RBF, _UP_HEAD, "        for idx, priority in zip(indices, indices):\n            # Handle small priorities\n", "fire", "C11.2"),
 ]
